@@ -218,6 +218,18 @@ async fn shutdown_case(certs: &Path, log: &EvLog, run: u64, case: &Value) -> Res
             }
         }));
     }
+    // a registration that is stuck for good: its peer has a 4-byte receive window and never reads, so the
+    // server's `Ok` cannot be written and the handler keeps its clone of the topic's sender
+    let mut stuck_keep = None;
+    if case["stuck_reg"].as_bool().unwrap_or(false) {
+        let slow = raw_connect_tiny_window(addr, certs, 4).await?;
+        let mut st = raw_stream(&slow).await?;
+        let t = selium_protocol::TopicName::try_from(format!("/vshut{run}/topic0").as_str())?;
+        st.send(selium_protocol::Frame::RegisterSubscriber(selium_protocol::SubscriberPayload { topic: t, retention_policy: 0, operations: vec![] })).await?;
+        tokio::time::sleep(Duration::from_millis(40)).await;
+        log.emit("stuck_registration", json!({}));
+        stuck_keep = Some((slow, st));
+    }
     tokio::time::sleep(Duration::from_millis(case["settle_ms"].as_u64().unwrap_or(30))).await;
 
     // the signal
@@ -274,6 +286,7 @@ async fn shutdown_case(certs: &Path, log: &EvLog, run: u64, case: &Value) -> Res
             log.emit("sub_summary", json!({"topic": ti, "sub": s, "pub": p, "first": ns[0], "last": ns[ns.len() - 1], "count": ns.len(), "contiguous": contiguous, "published": published}));
         }
     }
+    drop(stuck_keep);
     log.emit("done", json!({"ms": t_case.elapsed().as_millis() as u64}));
     server.stop();
     Ok(())
